@@ -344,6 +344,9 @@ def catalogue():
     # behind by the other setting (centerer_, max_components_) is not a difference the property talks about.
     cat["KernelPCovR[center switch]"] = xy_est(lambda s: KernelPCovR(mixing=0.5, n_components=2, kernel="rbf", gamma=0.1, center=(s == "small")),
                                                ["transform", "predict", "score"])
+    # documented-as-ignored arguments are still the caller's objects: a named kernel together with a kernel_params dict
+    cat["KernelPCovR[named kernel + kernel_params]"] = xy_est(lambda s: KernelPCovR(mixing=0.5, n_components=2 if s == "small" else 3, kernel="rbf", gamma=0.1,
+                                                                                      kernel_params={"length": 1.5}), ["transform", "predict", "score"])
     cat["PCovR[space switch]"] = xy_est(lambda s: PCovR(mixing=0.5, n_components=2, space="feature" if s == "small" else "sample"), ["transform", "predict", "score"])
     cat["OrthogonalRegression[mode switch]"] = xy_est(lambda s: OrthogonalRegression(use_orthogonal_projector=(s == "small")), ["predict"])
     cat["KernelNormalizer[center switch]"] = (lambda size: KernelNormalizer(with_center=(size == "small")),) + cat["KernelNormalizer"][1:]
